@@ -27,6 +27,14 @@ type kase struct {
 	Tags    []string `json:"tags"`
 }
 
+// exact returns the content as a slice whose capacity equals its length, so
+// that code reading past the end fails loudly.
+func exact(s string) []byte {
+	b := make([]byte, len(s))
+	copy(b, s)
+	return b[:len(b):len(b)]
+}
+
 func tagMap(tags []string) map[string]bool {
 	m := map[string]bool{}
 	for _, t := range tags {
@@ -253,7 +261,7 @@ func checkShouldBuild(content string, tagList []string, st *stats) []kit.V {
 	var pan any
 	func() {
 		defer func() { pan = recover() }()
-		got = imports.ShouldBuild([]byte(content), tags)
+		got = imports.ShouldBuild(exact(content), tags)
 	}()
 	key := func(class string) string {
 		return fmt.Sprintf("%s content=%q tags=%v", class, content, tagList)
@@ -369,7 +377,7 @@ func main() {
 				if c.Kind == "matchfile" {
 					imports.MatchFile(c.Name, tagMap(ts))
 				} else {
-					imports.ShouldBuild([]byte(c.Content), tagMap(ts))
+					imports.ShouldBuild(exact(c.Content), tagMap(ts))
 				}
 			}()
 		}
